@@ -303,6 +303,15 @@ pub trait DigitsIter<'a>: Iterator<Item = &'a u8> + Iter<'a> {
     /// this increments the count by 1.
     fn increment_count(&mut self);
 
+    /// Increment the number of digits that have been returned by the iterator
+    /// by `n`, after stepping over `n` digits at once.
+    #[inline(always)]
+    fn increment_count_by(&mut self, n: usize) {
+        for _ in 0..n {
+            self.increment_count();
+        }
+    }
+
     /// Peek the next value of the iterator, without consuming it.
     ///
     /// Note that this can modify the internal state, by skipping digits
